@@ -649,6 +649,9 @@ func runC02(tier string, _ []string) int {
 			barrier()
 		}
 		corner := corners[i%len(corners)]
+		if tier == "thorough" && i == len(corners) {
+			corner = "many-children" // (once per thorough run: it takes about a minute)
+		}
 		if scErr == nil {
 			switch corner {
 			case "both-write-same-identity":
@@ -687,6 +690,19 @@ func runC02(tier string, _ []string) int {
 					mark("write@" + side)
 					step(s.write(side, false, v1.ID, "", data.Point{Type: "value", Key: "m", Time: s.now(), Value: float64(300 + k), Origin: "harness"}))
 				}
+			case "many-children":
+				// scale (thorough tier): more than a thousand children below the device, created while the link is
+				// down; every one of them has to arrive upstream
+				step(setLink(false))
+				nKids := 1020 + r.Intn(60)
+				for k := 0; k < nKids && step(nil); k++ {
+					id := fmt.Sprintf("x%d-kid%04d", i, k)
+					if e, err := vlib.SendAck(s.ncD, vlib.EdgeSubj(id, s.devID), data.Points{{Type: data.PointTypeTombstone, Time: s.now(), Origin: "harness"}, {Type: data.PointTypeNodeType, Text: "variable"}}); err != nil || e != "" {
+						step(fmt.Errorf("child %d refused: %v %s", k, err, e))
+					}
+				}
+				mark("create@D")
+				s.note("D %d children created below the device", nKids)
 			case "same-content-rewritten":
 				// an identity holds a value on both sides; during an outage the upstream writes another value and,
 				// later, the downstream writes the old value again (same value, text and origin, newer time):
